@@ -119,6 +119,9 @@ func (ms *memstore) UpdateMeta(bucket string, filename string, meta *storage.Obj
 
 	InitScrubbedMeta(meta, filename)
 	meta.Metageneration = metagen
+	// Cannot be overridden by caller
+	meta.Generation = f.meta.Generation
+	meta.Md5Hash = f.meta.Md5Hash
 
 	b := ms.getBucket(bucket)
 	b.mu.Lock()
